@@ -263,6 +263,86 @@ class Kernel:
         return term, style, z3.Or(conds)
 
 
+def quote_wiring(ses, featureset="default"):
+    """format_token's string arm (or the in-crate helper it was moved into): on every path for a StringLiteral token
+      - written with quotes: the quote type of the token it builds IS the result of get_quote_to_use (no quoted literal bypasses the
+        quote selection - whatever else the path does to the text);
+      - written with long brackets: the token stays a brackets string.
+    Everything the arm calls is left unconstrained (havoc), so the obligation is about the wiring only."""
+    from .session import find_calls
+    flagged = []
+    ex0 = ses.executor("lib", featureset, inline=lambda n, f: False)
+    ft = ses.need(ex0, "format_token")
+    hosts = set()
+    for sts in ft.blocks.values():
+        for s_ in sts:
+            if s_[0] == "call":
+                g = ex0.resolve(s_[2])
+                if g is not None and g.blocks and "{closure" not in g.name and any(
+                        s2[0] == "call" and ("Regex::replace_all" in s2[2] or canon(s2[2]).split("::")[-1] == "get_quote_to_use") for b2 in g.blocks.values() for s2 in b2):
+                    hosts.add(g.name)
+    ex = ses.executor("lib", featureset, inline=lambda n, f: canon(n).split("::")[-1] in hosts or n in hosts, max_depth=3)
+    ex.max_block_visits = 2
+    fn = ses.need(ex, "format_token")
+    args = [RefV(ex.fresh_lazy(t.lstrip("&").strip(), p)) if t.startswith("&") else ex.fresh_lazy(t, p) for p, t in fn.params]
+    outs = ex.run(fn, args)
+    T = ex.enums
+    SL = T.index("TokenType", "StringLiteral")
+    BR = T.index("StringLiteralQuoteType", "Brackets")
+    n = 0
+    for pi, o in enumerate(outs):
+        if o.kind != "return":
+            continue
+        tt = find_calls(o.trace, lambda x: x.split("::")[-1] == "token_type")
+        if not tt:
+            continue
+        tobj = deref_val(ex, o.state, tt[0][2])
+        d = ex.discr(o.state, tobj)
+        if ses.check(list(o.pc) + [d == SL], 10)[0] != "sat":
+            continue
+        n += 1
+        qin = None
+        if isinstance(tobj, Lazy):
+            for (po, key), ch in ex.lazy_tab.items():
+                if po == tobj.oid and key[0] == "vfield" and key[1] == "StringLiteral":
+                    c2 = deref_val(ex, o.state, ch)
+                    if isinstance(c2, Lazy) and "StringLiteralQuoteType" in c2.ty:
+                        qin = ex.discr(o.state, c2)
+        gq = [g[2] for g in find_calls(o.trace, lambda x: x.split("::")[-1] == "get_quote_to_use")]
+        built = [deref_val(ex, o.state, c[1][0]) for c in find_calls(o.trace, lambda x: x.endswith("Token::new")) if c[1]]
+        built = [a for a in built if isinstance(a, Agg) and a.variant == "StringLiteral"]
+        if not built:
+            r, m = ses.obligation(f"quote-wiring/path{pi}/builds-a-string-token", list(o.pc) + [d == SL], z3.BoolVal(True), "a StringLiteral token is rebuilt as a StringLiteral token")
+            if r == "sat":
+                flagged.append((f"quote-wiring/path{pi}/builds-a-string-token", "format_token returns something else than a rebuilt StringLiteral for a string token", "quote-wiring", {}))
+            continue
+        oq = deref_val(ex, o.state, built[-1].fields[-1])
+        from_choice = any(oq is g or deref_val(ex, o.state, g) is oq for g in gq)
+        is_br = isinstance(oq, Agg) and oq.variant == "Brackets"
+        pre = list(o.pc) + [d == SL]
+        if qin is None:
+            # the path never looked at the quote type of the literal: it cannot tell brackets from quotes
+            bad_q, bad_b = z3.BoolVal(not from_choice), z3.BoolVal(not is_br)
+            r, m = ses.obligation(f"quote-wiring/path{pi}/quote-type-inspected", pre, z3.BoolVal(True), "the arm distinguishes brackets strings from quoted ones")
+            if r == "sat":
+                flagged.append((f"quote-wiring/path{pi}/quote-type-inspected", "a string token is rebuilt without looking at its quote type", "quote-wiring", {}))
+            continue
+        reach_q = ses.check(pre + [qin != z3.BitVecVal(BR, 64), z3.ULT(qin, z3.BitVecVal(3, 64))], 10)[0] == "sat"
+        reach_b = ses.check(pre + [qin == z3.BitVecVal(BR, 64)], 10)[0] == "sat"
+        r, m = ses.obligation(f"quote-wiring/path{pi}/quoted-literal-goes-through-get_quote_to_use", pre + [qin != z3.BitVecVal(BR, 64), z3.ULT(qin, z3.BitVecVal(3, 64))], z3.BoolVal(not from_choice),
+                              "quoted literal: the output quote type is the result of get_quote_to_use") if reach_q else ("skip", None)
+        if r == "sat":
+            flagged.append((f"quote-wiring/path{pi}/quoted-literal-goes-through-get_quote_to_use", "a path of format_token rebuilds a QUOTED string literal without asking "
+                            "get_quote_to_use for its quote (quote_style is not honoured there)", "quote-wiring", {}))
+        r, m = ses.obligation(f"quote-wiring/path{pi}/brackets-literal-stays-brackets", pre + [qin == z3.BitVecVal(BR, 64)], z3.BoolVal(not is_br),
+                              "brackets literal: the output is a brackets literal") if reach_b else ("skip", None)
+        if r == "sat":
+            flagged.append((f"quote-wiring/path{pi}/brackets-literal-stays-brackets", "a path of format_token rebuilds a long-bracket string with another quote type", "quote-wiring", {}))
+    if n == 0:
+        raise Inconclusive("format_token: no path for a StringLiteral token")
+    return flagged
+
+
 def strip_is_ref(t):
     return t.strip().startswith("&")
 
